@@ -49,7 +49,13 @@ pub enum FileDiff {
     /// The diff adds the whole file (every line is new).
     Added,
     /// The diff is one pure single-line insertion (-U0): rendered line number `line` is new.
-    Insert { line: usize },
+    /// With `renamed_from`, the same diff also renames the file (git's "rename from/to" section):
+    /// the old path no longer exists, the file named in the diff is the new one.
+    Insert {
+        line: usize,
+        #[serde(default)]
+        renamed_from: Option<String>,
+    },
     /// The diff deletes the file; it does not exist in the tree.
     Deleted,
 }
@@ -196,6 +202,11 @@ pub struct EnvSpec {
     /// Simulated endpoint keeps connections alive between requests.
     #[serde(default)]
     pub ai_keep_alive: bool,
+    /// Unrelated OPENAI_* variables of some other tool are present in the environment
+    /// (OPENAI_API_KEY, OPENAI_ADMIN_KEY, OPENAI_BASE_URL, ...): blockwatch is configured by the
+    /// BLOCKWATCH_AI_* variables only.
+    #[serde(default)]
+    pub ambient_openai_env: bool,
 }
 
 #[derive(Serialize, Deserialize, Clone, Debug, PartialEq)]
@@ -503,17 +514,27 @@ pub fn render_diff_section(f: &FileSpec, rendered: &RenderedFile) -> Option<Stri
             }
             Some(s)
         }
-        FileDiff::Insert { line } => {
+        FileDiff::Insert { line, renamed_from } => {
             let l = *line;
             let text = rendered.lines.get(l - 1)?;
-            Some(format!(
-                "diff --git a/{p} b/{p}\nindex 2222222..3333333 100644\n--- a/{}\n+++ b/{}\n@@ -{},0 +{} @@\n+{}\n",
-                diff_path(p),
-                diff_path(p),
-                l - 1,
-                l,
-                text
-            ))
+            match renamed_from {
+                None => Some(format!(
+                    "diff --git a/{p} b/{p}\nindex 2222222..3333333 100644\n--- a/{}\n+++ b/{}\n@@ -{},0 +{} @@\n+{}\n",
+                    diff_path(p),
+                    diff_path(p),
+                    l - 1,
+                    l,
+                    text
+                )),
+                Some(old) => Some(format!(
+                    "diff --git a/{old} b/{p}\nsimilarity index 90%\nrename from {old}\nrename to {p}\nindex 2222222..3333333 100644\n--- a/{}\n+++ b/{}\n@@ -{},0 +{} @@\n+{}\n",
+                    diff_path(old),
+                    diff_path(p),
+                    l - 1,
+                    l,
+                    text
+                )),
+            }
         }
         FileDiff::Deleted => {
             let n = rendered.lines.len();
